@@ -180,12 +180,32 @@ def run_go(ctx, lines, tag):
     return rc, log, vlib.read_lines_by_id(out)
 
 
-def run_model(ctx, lines, tag):
-    inp = '%s/%s.model.in' % (ctx.work, tag)
-    out = '%s/%s.model.out' % (ctx.work, tag)
-    open(inp, 'w').write('\n'.join(lines) + '\n')
-    rc, err = vlib.run_model('c04', inp, out)
-    return rc, err, vlib.read_lines_by_id(out)
+def run_model(ctx, lines, tag, nproc=4):
+    """the extracted model on the case lines; the lines are dealt round-robin to nproc processes"""
+    import subprocess
+    binp = '%s/ocaml/bin/c04' % vlib.V
+    if not os.path.exists(binp):
+        return 127, 'model binary %s missing (extraction or OCaml build failed)' % binp, {}
+    order = sorted(range(len(lines)), key=lambda i: -len(lines[i]))     # big cases first, spread evenly
+    nproc = max(1, min(nproc, len(lines)))
+    procs = []
+    for k in range(nproc):
+        inp = '%s/%s.model.%d.in' % (ctx.work, tag, k)
+        out = '%s/%s.model.%d.out' % (ctx.work, tag, k)
+        open(inp, 'w').write('\n'.join(lines[i] for i in order[k::nproc]) + '\n')
+        procs.append((subprocess.Popen([binp], stdin=open(inp), stdout=open(out, 'w'), stderr=subprocess.PIPE, text=True), out))
+    rc, err, res = 0, '', {}
+    for p, out in procs:
+        try:
+            _, e = p.communicate(timeout=3000)
+        except subprocess.TimeoutExpired:
+            p.kill(); e = 'model timeout'
+            rc = 124
+        if p.returncode:
+            rc = rc or p.returncode
+            err += e or ''
+        res.update(vlib.read_lines_by_id(out))
+    return rc, err, res
 
 
 def parse_g(out):
@@ -327,7 +347,10 @@ def correspondence(ctx, verdict, pr):
                 fail('interop-decode', what, c, dict(message=v[:4000], model=mo[:200]))
                 mism.append((len(v), what, c))
                 continue
-            padseen[c['m']].add(int(parts[1]))
+            padseen[c['m']].add(int(parts[1].split(':')[0]))
+            if parts[1].endswith(':0'):
+                what = 'the model\'s obfuscate (pad_len) never pads a frame with seq=%d, Go added %s bytes' % (c['seq'], parts[1].split(':')[0])
+                mism.append((len(v), what, c))
             if parts[2] != want_dec(c, ' '):
                 what = 'the independent decoder reads a different frame from the message Go produced: ' + parts[2][:120]
                 fail('interop-decode', what, c, dict(message=v[:4000], model=parts[2][:300]))
